@@ -53,6 +53,34 @@ def hash_container_offenders(facts, crate):
     return n, offenders
 
 
+def sort_key_shape(facts, fn, sort_term):
+    """('hash-only' | 'more' | None): what the step 5.3 sort orders by.  Recognised: `sort*_by_key(|p| p.0)` and
+    `sort*_by(|a, b| Ord::cmp(&a.0, &b.0))` (hash-only); a key / comparator involving more than component 0 is 'more'."""
+    if len(sort_term["args"]) < 2:
+        return None
+    clo = fn.origin(sort_term["args"][1])
+    cf = facts.fns.get(clo[1]["def"]) if clo[0] == "agg" and clo[1].get("k") == "closure" else None
+    if cf is None:
+        return None
+    name = sort_term["f"]["name"].split("::")[-1]
+    if "by_key" in name or "cached_key" in name:
+        rets = [st for b in cf.blocks for st in b["s"] if st[0] == "=" and st[1] == [0]]
+        only = (len(rets) == 1 and rets[0][2][0] == "use" and rets[0][2][1][0] != "k"
+                and [p for p in rets[0][2][1][1][1:] if p != "*"] == ["f0:"] and rets[0][2][1][1][0] == 2 and not list(cf.calls()))
+        return "hash-only" if only else "more"
+    if name.endswith("_by") or name == "sort_by":
+        calls = [t for _, t in cf.calls()]
+        if len(calls) == 1 and call_name_matches(calls[0], r"cmp::Ord::cmp$|cmp::PartialOrd::partial_cmp$") and calls[0]["dest"] == [0]:
+            projs = []
+            for a in calls[0]["args"]:
+                o = cf.origin(a)
+                projs.append((o[1], [p for p in o[2] if p != "*"]) if o[0] == "param" else None)
+            if all(p and p[1] == ["f0:"] for p in projs) and {p[0] for p in projs} == {2, 3}:
+                return "hash-only"
+        return "more"
+    return None
+
+
 def tie_rule(ck, facts):
     """R5.6: the two places where equal candidates are ordered / chosen.  The anchored mechanism says ties only occur between
     automorphic nodes; that is refuted when a blank node is the graph name of a quad it shares with other blank nodes
@@ -65,14 +93,13 @@ def tie_rule(ck, facts):
         if len(sorts) != 1 or len(sorts[0][1]["args"]) < 2:
             ck.bad("R5.6", "R5.6@relabel_with#anchor", "anchor-missing: the step 5.3 sort", fn.loc)
         else:
+            shape = sort_key_shape(facts, fn, sorts[0][1])
             clo = fn.origin(sorts[0][1]["args"][1])
             cf = facts.fns.get(clo[1]["def"]) if clo[0] == "agg" and clo[1].get("k") == "closure" else None
-            if cf is None:
-                ck.bad("R5.6", "R5.6@relabel_with#anchor", "anchor-missing: the key closure of the step 5.3 sort", fn.loc)
+            if shape is None or cf is None:
+                ck.bad("R5.6", "R5.6@relabel_with#anchor", "anchor-missing: the key / comparator closure of the step 5.3 sort", fn.loc)
             else:
-                rets = [st for b in cf.blocks for st in b["s"] if st[0] == "=" and st[1] == [0]]
-                only_hash = (len(rets) == 1 and rets[0][2][0] == "use" and rets[0][2][1][0] != "k"
-                             and [p for p in rets[0][2][1][1][1:] if p != "*"] == ["f0:"] and rets[0][2][1][1][0] == 2 and not list(cf.calls()))
+                only_hash = shape == "hash-only"
                 if only_hash:
                     ck.bad("R5.6", "R5.6@relabel_with#step5.3-ties-keep-label-order", "step 5.3 sorts the (hash, issuer) pairs of a hash group by "
                            "the hash alone: nodes with equal n-degree hashes keep the order of the group's list, which is the order of the "
@@ -155,7 +182,8 @@ def run(ck, facts, tier):
             ck.bad("R5.1", "R5.1@relabel_with#step5.3-sort", "canonical identifiers of tied blank nodes are issued without first sorting the "
                    "hash-path list by hash (the numbering would follow the input labels)", fn.loc)
         # sorted by the hash component
-        if sorts and not call_name_matches(sorts[0][1], r"sort_unstable_by_key$|sort_by_key$|sort_by_cached_key$"):
+        if sorts and not call_name_matches(sorts[0][1], r"sort_unstable_by_key$|sort_by_key$|sort_by_cached_key$") \
+                and sort_key_shape(facts, fn, sorts[0][1]) is None:
             ck.bad("R5.1", "R5.1@relabel_with#step5.3-key", "step 5.3 does not sort by the hash key", fn.loc)
         # R5.4
         oks = list(blocks_with_agg(fn, "core::result::Result", "Ok"))
